@@ -203,6 +203,52 @@ theorem band_point_own_direction (segs : List Seg) (k j : Nat) (hk : k < segs.le
   rw [List.getElem?_append_right (by omega), hl2]
   simp [hj]
 
+/-! ### Γ with NAC, group velocities, writers: decision tables -/
+
+/-- meshes never use an approach direction; q-point lists and the direct object use exactly the caller's;
+band paths exactly the segment's; the same in both builds (the model has no build parameter here) -/
+theorem gamma_direction_table :
+    (∀ u s, freqGammaDir Path.mesh u s = GammaDir.none ∧ freqGammaDir Path.iterMesh u s = GammaDir.none) ∧
+    (∀ s, freqGammaDir Path.qpoints true s = GammaDir.user ∧ freqGammaDir Path.qpoints false s = GammaDir.none) ∧
+    (∀ s, freqGammaDir Path.direct true s = GammaDir.user ∧ freqGammaDir Path.direct false s = GammaDir.none) ∧
+    (∀ u, freqGammaDir Path.band u true = GammaDir.segment ∧ freqGammaDir Path.band u false = GammaDir.none) := by decide
+
+/-- only `run_qpoints` with a `nac_q_direction` perturbs the group-velocity calculation; everywhere else group
+velocities are site-symmetry averaged — in particular on band paths, whose *frequencies* at Γ use the segment
+direction while the group velocities do not -/
+theorem gv_perturbation_table :
+    (∀ p u, gvSymmetrized p u = true ↔ ¬ (p = Path.qpoints ∧ u = true)) ∧
+    (∀ u, gvPerturbation Path.band u = GammaDir.none ∧ freqGammaDir Path.band u true = GammaDir.segment) := by
+  constructor
+  · intro p u; cases p <;> cases u <;> decide
+  · intro u; cases u <;> exact ⟨rfl, rfl⟩
+
+/-- **gv_call_history_free**: on one `Phonopy` instance every call computes its group velocities with its own
+perturbation direction (the default when none is given), whatever calls came before and whatever state the cached
+object was left in -/
+theorem gv_call_history_free (calls : List GammaDir) (s : GvState) : gvSequence calls s = calls := by
+  induction calls generalizing s with
+  | nil => rfl
+  | cons p rest ih => simp [gvSequence, gvRun, ih]
+
+/-- in particular a call gives the same result after any history as on a fresh object -/
+theorem gv_same_as_fresh (hist : List GammaDir) (p : GammaDir) (s : GvState) :
+    (gvSequence (hist ++ [p]) s).getLast? = (gvSequence [p] ⟨GammaDir.none⟩).getLast? := by
+  rw [gv_call_history_free, gv_call_history_free]; simp
+
+/-- **writers_field_table**: a file contains exactly the optional fields the serialised result has (for the
+repaired text: exactly the requested ones), and the yaml and hdf5 writers of one object agree — all 16 option sets -/
+theorem writers_field_table :
+    (∀ (w : Writer) (omp : Bool) (o : Opts) (ord : List Nat) (q : Nat),
+        (runRow Rev.fixed w.path omp o ord q).map rowFields = .ok (written w o)) ∧
+    (∀ o, written Writer.qpointsYaml o = written Writer.qpointsHdf5 o ∧ written Writer.meshYaml o = written Writer.meshHdf5 o ∧
+          written Writer.bandYaml o = written Writer.bandHdf5 o) := by
+  constructor
+  · intro w omp o ord q
+    obtain ⟨e, g, d, c⟩ := o
+    cases w <;> cases omp <;> cases e <;> cases g <;> cases d <;> cases c <;> rfl
+  · intro o; exact ⟨rfl, rfl, rfl⟩
+
 /-! ### band connection only re-orders -/
 
 theorem isPermB_sound {l : List Nat} {n : Nat} (h : isPermB l n = true) : l.Perm (List.range n) := by
@@ -253,9 +299,32 @@ of `estimate_band_connection` terminates normally and returns a permutation. -/
 theorem connOrder_perm_of_pos (n : Nat) (m : List (List Rat)) (hm : m.length = n)
     (hpos : ∀ row ∈ m, row.length = n ∧ ∀ i, i < n → 0 < row.getD i 0) :
     ∃ c, connOrder? m = some c ∧ c.Perm (List.range n) := by
-  obtain ⟨c, hc, hnd, hlt, hlen⟩ := connOrderAux_perm n m [] none hpos List.nodup_nil (by simp) (by simpa using hm)
+  obtain ⟨c, hc, hnd, hlt, hlen⟩ := connOrderAux_perm 0 n m [] none hpos List.nodup_nil (by simp) (by simpa using hm)
   exact ⟨c, hc, perm_range_of_nodup hnd hlt hlen⟩
 
+
+/-- **band_connection_perm_fixed**: with the repaired initial value (`maxval = -1`) the greedy matching returns a
+permutation for *every* square matrix of non-negative overlaps — exact zeros included -/
+theorem band_connection_perm_fixed (n : Nat) (m : List (List Rat)) (hm : m.length = n)
+    (hnn : ∀ row ∈ m, row.length = n ∧ ∀ i, i < n → 0 ≤ row.getD i 0) :
+    ∃ c, connOrderFixed? m = some c ∧ c.Perm (List.range n) := by
+  have hpos : ∀ row ∈ m, row.length = n ∧ ∀ i, i < n → (-1 : Rat) < row.getD i 0 := by
+    intro row hr
+    refine ⟨(hnn row hr).1, fun i hi => ?_⟩
+    have := (hnn row hr).2 i hi
+    linarith
+  obtain ⟨c, hc, hnd, hlt, hlen⟩ := connOrderAux_perm (-1) n m [] none hpos List.nodup_nil (by simp) (by simpa using hm)
+  exact ⟨c, hc, perm_range_of_nodup hnd hlt hlen⟩
+
+/-- on the pinned text (`maxval = 0`) an exact zero overlap can make the matching return a band twice: the overlap
+moduli of a 4×4 orthogonal matrix with one zero entry (found by random search, replayed on the code) -/
+def zeroOverlapExample : List (List Rat) :=
+  [[6049/10000, 2065/10000, 5327/10000, 5547/10000], [1043/10000, 4541/10000, 6651/10000, 5835/10000],
+   [4630/10000, 6398/10000, 1562/10000, 5932/10000], [6394/10000, 5846/10000, 4994/10000, 0]]
+
+theorem band_connection_zero_overlap_counterexample :
+    connOrder? zeroOverlapExample = some [0, 2, 1, 1] ∧ isPermB [0, 2, 1, 1] 4 = false ∧
+    connOrderFixed? zeroOverlapExample = some [0, 2, 1, 3] := by decide +kernel
 
 /-! ### written precision -/
 
@@ -320,8 +389,15 @@ end PhononModel.C14
 #print axioms PhononModel.C14.init_mesh_gamma_counterexample
 #print axioms PhononModel.C14.band_direction_history_free
 #print axioms PhononModel.C14.band_point_own_direction
+#print axioms PhononModel.C14.gamma_direction_table
+#print axioms PhononModel.C14.gv_perturbation_table
+#print axioms PhononModel.C14.gv_call_history_free
+#print axioms PhononModel.C14.gv_same_as_fresh
+#print axioms PhononModel.C14.writers_field_table
 #print axioms PhononModel.C14.isPermB_sound
 #print axioms PhononModel.C14.band_connection_perm
 #print axioms PhononModel.C14.bandOrder_perm
 #print axioms PhononModel.C14.connOrder_perm_of_pos
+#print axioms PhononModel.C14.band_connection_perm_fixed
+#print axioms PhononModel.C14.band_connection_zero_overlap_counterexample
 #print axioms PhononModel.C14.written_precision
